@@ -274,6 +274,8 @@ class Run:
         lines = []
         seen = set()
         os.makedirs(os.path.join(VERIF, "replays"), exist_ok=True)
+        for old in glob.glob(os.path.join(VERIF, "replays", "%s-%s-%d-*.json" % (self.prop, self.tier, self.seed))):
+            os.unlink(old)
         for v in new:
             if v["sig"] in seen:
                 continue
